@@ -3,6 +3,8 @@
 // usage: verif_lint <seed> <nfiles> <repo-root> [cli-sample]     generated files
 //
 //	verif_lint replay <hex of a DBC text> [repo-root]       one given file (with repo-root: also through cantool lint)
+//	verif_lint replaydir <repo-root> <file>                 the texts of <file> (one hex text per line) in sequence: one
+//	                                                        window of reused analyzers, one directory for cantool lint
 //
 // For every generated DBC text the harness parses it with the real parser and prints one block
 //
@@ -14,6 +16,9 @@
 //	                           one line per analyzer (all 20), diagnostics in the order reported
 //	PURE <passes that changed the File, or ->      deep comparison of the File before/after each pass
 //	ORDER <passes whose diagnostics differ when the passes run in the reverse order, or ->
+//	REUSE - | REUSE <passes> <texts>   analyzer values obtained ONCE from Analyzer() and run over the files of a window
+//	                           in sequence, twice per file: the passes whose diagnostics differ from those of a
+//	                           fresh analyzer value (and then the texts of the window so far, comma separated)
 //	CLI1 <path> <exit status> <stdout> <stderr>      the real `cantool lint <path>` binary on this file alone
 //	CLIB <batch> <path>        the file is a member of directory batch <batch> (linted by one `cantool lint <dir>`)
 //	END
@@ -137,6 +142,49 @@ func snapshot(f *dbc.File) string {
 	return b.String()
 }
 
+// reuser: analyzer values obtained once and used for every file of a window (an *analysis.Analyzer is a value a
+// caller may keep: cmd/cantool could hoist analyzers() out of its loop). Whatever a Run leaves behind must not
+// change the diagnostics of the next Run, on another file or on the same one.
+type reuser struct {
+	as    []*analysis.Analyzer
+	texts []string
+}
+
+const reuseWindow = 6
+
+var reuse = &reuser{}
+
+func (r *reuser) reset() { r.as, r.texts = nil, nil }
+
+func (r *reuser) check(w *bufio.Writer, as []namedAnalyzer, f *dbc.File, text []byte, fresh []string) {
+	if r.as == nil || len(r.texts) >= reuseWindow {
+		r.reset()
+		r.as = make([]*analysis.Analyzer, len(as))
+		for i, na := range as {
+			r.as[i] = na.mk()
+		}
+	}
+	h := hex.EncodeToString(text)
+	if h == "" {
+		h = "-"
+	}
+	r.texts = append(r.texts, h)
+	var differ []string
+	for i, na := range as {
+		for rep := 0; rep < 2; rep++ {
+			if runPass(r.as[i], f) != fresh[i] {
+				differ = append(differ, na.name)
+				break
+			}
+		}
+	}
+	if len(differ) == 0 {
+		fmt.Fprintln(w, "REUSE -")
+	} else {
+		fmt.Fprintf(w, "REUSE %s %s\n", strings.Join(differ, ","), strings.Join(r.texts, ","))
+	}
+}
+
 type cliMode int
 
 const (
@@ -200,6 +248,9 @@ func checkFile(w *bufio.Writer, n int, category string, text []byte, perturb fun
 		fmt.Fprintln(w, "ORDER -")
 	} else {
 		fmt.Fprintf(w, "ORDER %s\n", strings.Join(differ, ","))
+	}
+	if perturb == nil {
+		reuse.check(w, as, f, text, first)
 	}
 	cliLine()
 	fmt.Fprintln(w, "END")
@@ -1832,6 +1883,90 @@ func (g *gen) boundaryFiles() []namedText {
 	return out
 }
 
+// sharedGroup returns the files of ONE directory that share identifiers: a base file, and files derived from it
+// that use the same node names, message ids, signal / attribute / environment variable names but declare fewer of
+// them (or none), copies of the base (duplicates only ACROSS files are no violation; singleton and required
+// definitions count per file), and a small file that references the base's nodes without declaring them. Every
+// file is linted on its own terms: what an earlier file of the directory declares must not mask a later violation.
+func (g *gen) sharedGroup(gi int) []namedText {
+	var k knobs
+	if gi%3 == 2 {
+		for _, name := range knobNames {
+			if g.chance(0.1) {
+				k.set(name, 1)
+			}
+		}
+		k.crlf, k.unknownFirst, k.missingBU = false, false, false
+	}
+	base := g.build(k)
+	if !strings.HasSuffix(base, "\n") {
+		base += "\n"
+	}
+	var nodes []string
+	mapLines := func(fn func(line string) (string, bool)) string {
+		var sb strings.Builder
+		for _, line := range strings.SplitAfter(base, "\n") {
+			if out, keep := fn(line); keep {
+				sb.WriteString(out)
+			}
+		}
+		return sb.String()
+	}
+	for _, line := range strings.Split(base, "\n") {
+		if strings.HasPrefix(line, "BU_:") {
+			nodes = append(nodes, strings.Fields(line[4:])...)
+		}
+	}
+	if len(nodes) == 0 {
+		nodes = []string{"NodeA", "NodeB"}
+	}
+	keepNodes := func(n int) string { // every BU_ line declares at most its first n nodes
+		return mapLines(func(line string) (string, bool) {
+			if strings.HasPrefix(line, "BU_:") {
+				fs := strings.Fields(line[4:])
+				if len(fs) > n {
+					fs = fs[:n]
+				}
+				return strings.TrimRight("BU_: "+strings.Join(fs, " "), " ") + "\n", true
+			}
+			return line, true
+		})
+	}
+	drop := func(prefixes ...string) string {
+		return mapLines(func(line string) (string, bool) {
+			for _, p := range prefixes {
+				if strings.HasPrefix(line, p) {
+					return "", false
+				}
+			}
+			return line, true
+		})
+	}
+	nd := func() string { return nodes[g.r.Intn(len(nodes))] }
+	id := g.between(1, 0x7ff)
+	own := "Own" + g.camel()
+	small := fmt.Sprintf("VERSION \"\"\n\nNS_ :\n\nBS_:\n\nBU_: %s\n\nBO_ %d %s: 8 %s\n SG_ %s : 0|8@1+ (1,0) [0|100] \"\" %s,%s\n\n"+
+		"BO_TX_BU_ %d : %s,%s;\n\nEV_ %s: 0 [0|10] \"\" 0 %d DUMMY_NODE_VECTOR0 %s;\n",
+		own, id, g.camel(), nd(), g.camel(), nd(), own, id, own, nd(), g.camel(), g.between(1, 99), nd())
+	variants := []namedText{
+		{"fewer-nodes", keepNodes(1)},
+		{"copy", base},
+		{"no-nodes", keepNodes(0)},
+		{"no-bu", drop("BU_:")},
+		{"no-header", drop("VERSION", "NS_", "BS_", "BU_:")},
+		{"no-val", drop("VAL_ ", "VAL_TABLE_ ")},
+		{"small", small},
+	}
+	g.r.Shuffle(len(variants), func(i, j int) { variants[i], variants[j] = variants[j], variants[i] })
+	variants = variants[:4]
+	out := []namedText{{"base", base}}
+	if gi%2 == 1 { // the declaring file in the middle: files before it and after it
+		out = append([]namedText{variants[0]}, out...)
+		variants = variants[1:]
+	}
+	return append(out, variants...)
+}
+
 // ---------------------------------------------------------------------------- synthetic perturbation
 
 func (g *gen) perturb(f *dbc.File) {
@@ -2041,8 +2176,30 @@ func main() {
 		checkFile(w, 0, "replay", text, nil, nil, cliNone)
 		return
 	}
+	if len(os.Args) >= 4 && os.Args[1] == "replaydir" {
+		lines, err := os.ReadFile(os.Args[3])
+		if err != nil {
+			panic(err)
+		}
+		g := &gen{r: rand.New(rand.NewSource(1))}
+		oracleHeader(w, g)
+		cli := newCliRunner(os.Args[2])
+		defer cli.close()
+		for i, h := range strings.Fields(string(lines)) {
+			if h == "-" {
+				h = ""
+			}
+			text, err := hex.DecodeString(h)
+			if err != nil {
+				panic(err)
+			}
+			checkFile(w, i, "replay", text, nil, cli, cliBatch)
+		}
+		cli.flush(w, true)
+		return
+	}
 	if len(os.Args) < 4 {
-		fmt.Fprintln(os.Stderr, "usage: verif_lint <seed> <nfiles> <repo-root> [cli-sample] | replay <hex>")
+		fmt.Fprintln(os.Stderr, "usage: verif_lint <seed> <nfiles> <repo-root> [cli-sample] | replay <hex> | replaydir <repo-root> <file>")
 		os.Exit(2)
 	}
 	seed, _ := strconv.ParseInt(os.Args[1], 10, 64)
@@ -2069,7 +2226,7 @@ func main() {
 		mode := cliNone
 		switch {
 		case cli == nil || perturb != nil:
-		case strings.HasPrefix(category, "boundary:countdir:"):
+		case strings.HasPrefix(category, "boundary:countdir:") || strings.HasPrefix(category, "boundary:shared:"):
 			mode = cliBatch // the members of one directory
 		case category == "degenerate" || strings.HasPrefix(category, "boundary:"):
 			mode = cliSingle // a crash on one of these must not hide anything else
@@ -2102,6 +2259,20 @@ func main() {
 			cli.flush(w, true)
 		}
 	}
+	// 1d. directories (and windows of reused analyzers) whose files share identifiers
+	for gi := 0; gi < 8; gi++ {
+		if cli != nil {
+			cli.flush(w, true)
+		}
+		reuse.reset()
+		for _, f := range g.sharedGroup(gi) {
+			emit("boundary:shared:"+f.category, f.text, nil)
+		}
+		if cli != nil {
+			cli.flush(w, true)
+		}
+	}
+	reuse.reset()
 	// 2. clean files (0 violations)
 	for i := 0; i < 12; i++ {
 		emit("clean", g.build(knobs{big: i%6 == 5}), nil)
